@@ -29,7 +29,15 @@ impl Read for Tee { fn read(&mut self, b: &mut [u8]) -> std::io::Result<usize> {
 impl Write for Tee { fn write(&mut self, b: &[u8]) -> std::io::Result<usize> { self.inner.write(b) } fn flush(&mut self) -> std::io::Result<()> { self.inner.flush() } }
 
 #[derive(Default, Debug)]
-pub struct ConnLog { pub cr: Vec<u8>, pub m1: Vec<u8>, pub m2: Vec<u8>, pub m3: Vec<u8>, pub r2: Vec<u8>, pub chal: Vec<u8>, pub k: Option<Vec<u8>>, pub creds: Option<Vec<u8>>, pub frames: Vec<Vec<u8>>, pub srv_msgs: Vec<Vec<u8>>, pub ccr: Vec<u8>, pub au: Vec<u8>, pub cjc: Vec<Vec<u8>>, pub lic: Vec<u8>, pub note: String, pub sel: u32, pub raw: Vec<u8> }
+pub struct ConnLog { pub cr: Vec<u8>, pub m1: Vec<u8>, pub m2: Vec<u8>, pub m3: Vec<u8>, pub r2: Vec<u8>, pub chal: Vec<u8>, pub k: Option<Vec<u8>>, pub creds: Option<Vec<u8>>, pub frames: Vec<Vec<u8>>, pub srv_msgs: Vec<Vec<u8>>, pub ccr: Vec<u8>, pub au: Vec<u8>, pub cjc: Vec<Vec<u8>>, pub lic: Vec<u8>, pub note: String, pub sel: u32, pub raw: Vec<u8>, pub ahead: Option<usize> }
+
+/// is there unread data on the socket right now? (the client wrote something although the
+/// server has not yet answered the request it is processing)
+fn pending(fd: i32) -> bool {
+    let mut b = [0u8; 1];
+    let n = unsafe { libc::recv(fd, b.as_mut_ptr() as *mut libc::c_void, 1, libc::MSG_PEEK | libc::MSG_DONTWAIT) };
+    n > 0
+}
 
 pub fn read_tpkt<S: Read>(s: &mut S) -> Option<Vec<u8>> {
     let mut h = [0u8; 4];
@@ -44,6 +52,8 @@ pub fn read_tpkt<S: Read>(s: &mut S) -> Option<Vec<u8>> {
 pub fn serve(raw: UnixStream, s: SrvCfg, acc_key: Vec<u8>, rawlog: Arc<Mutex<Vec<u8>>>) -> ConnLog {
     let mut log = ConnLog::default();
     raw.set_read_timeout(Some(Duration::from_secs(3))).ok();
+    use std::os::unix::io::AsRawFd;
+    let rawfd = raw.as_raw_fd();
     let mut tee = Tee { inner: raw, log: rawlog };
     log.cr = match read_tpkt(&mut tee) { Some(f) => f, None => { log.note = "no connection request".into(); return log; } };
     let offered = if log.cr.len() >= 19 { u32::from_le_bytes([log.cr[15], log.cr[16], log.cr[17], log.cr[18]]) } else { 0 };
@@ -133,6 +143,12 @@ pub fn serve(raw: UnixStream, s: SrvCfg, acc_key: Vec<u8>, rawlog: Arc<Mutex<Vec
                 _ => {}
             }
         }
+        // a request that has a reply: the client must be waiting for it, not writing ahead
+        let needs_reply = m[0] == 0x7f || matches!(m[0] >> 2, 10 | 14) || (m[0] >> 2 == 25 && sdrq == 1);
+        if needs_reply && log.ahead.is_none() {
+            std::thread::sleep(Duration::from_millis(4));
+            if pending(rawfd) { log.ahead = Some(log.frames.len()); }
+        }
         if !ans.is_empty() && !write_all(&mut tls, &ans) { break; }
     }
     log
@@ -180,7 +196,7 @@ pub fn run_conn(c: &Cfg, s: &SrvCfg) -> Run {
     let status = match &res { Ok(Ok(())) => "ok".to_string(), Ok(Err(e)) => format!("E@{}", e.split(':').next().unwrap_or("")), Err(_) => "P".to_string() };
     let mut nla = log.m1.clone(); nla.extend(&log.m2); nla.extend(&log.m3);
     let frames: Vec<String> = log.frames.iter().map(|f| hex(f)).collect();
-    let out = format!("{} cr={} nla={} frames={} creds={}", status, hex(&log.cr), hex(&nla), frames.join("+"), log.creds.as_ref().map(|x| hex(x)).unwrap_or("-".into()));
+    let out = format!("{} ahead={} cr={} nla={} frames={} creds={}", status, log.ahead.map(|x| x.to_string()).unwrap_or("-".into()), hex(&log.cr), hex(&nla), frames.join("+"), log.creds.as_ref().map(|x| hex(x)).unwrap_or("-".into()));
     // observed values for the model
     let nego = parse_ts_request(&log.m1).and_then(|f| f.nego).unwrap_or_default();
     let auth = parse_ts_request(&log.m2).and_then(|f| f.nego).unwrap_or_default();
@@ -263,6 +279,7 @@ pub fn secrets_violation(c: &Cfg, r: &Run) -> Option<String> {
 pub fn tlsgate(em: &mut Emitter, check: bool, nla: bool, ra: bool, ssel: u32) {
     let c = Cfg { w: 800, h: 600, lay: 0x409, name: "rdp-rs".into(), dom: "d".into(), user: "u".into(), pw: "secret-pw".into(), hash: false, ra, blank: false, auto: false, nla, check };
     let s = SrvCfg { sel: ssel, id: 1, uid: 1004, version: 0x80004, license_new: false, share: 0x103ea, caps: default_caps(), source: vec![], chal_flags: 0x62898235, inputs: vec![], script: vec![], reactivate: None };
+    watch_begin(&format!("tlsgate check={} nla={} ra={} ssel={} sel=0", check as u8, nla as u8, ra as u8, ssel));
     let r = run_conn(&c, &s);
     let tls_up = r.log.note != "tls accept failed" && (!r.log.m1.is_empty() || !r.log.frames.is_empty());
     let cred = !r.log.m1.is_empty() || !r.log.m2.is_empty() || r.log.frames.len() > 5;
@@ -277,6 +294,7 @@ pub fn tlsgate(em: &mut Emitter, check: bool, nla: bool, ra: bool, ssel: u32) {
 /// order, each PDU carrying the identifiers the server assigned
 pub fn sequence_violation(s: &SrvCfg, r: &Run) -> Option<String> {
     if r.status != "ok" { return Some(format!("connection did not complete: {}", r.status)); }
+    if let Some(k) = r.log.ahead { return Some(format!("the client wrote frame {} before the server had sent the reply the previous request depends on", k)); }
     let fr = &r.log.frames;
     let kind = |f: &Vec<u8>| -> u8 { if f.len() < 8 { 0 } else if f[7] == 0x7f { 0x7f } else { f[7] >> 2 } };
     let n_act = if s.reactivate.is_some() { 2 } else { 1 };
@@ -335,7 +353,16 @@ pub fn run_case(toks: &[&str], em: &mut Emitter) {
     let _ = emit(em, &c, &s);
 }
 
+/// the replayable part of a `conn` line (configuration and server choices, nothing observed)
+pub fn recipe_line(c: &Cfg, s: &SrvCfg) -> String {
+    let capsh: Vec<String> = s.caps.iter().map(|x| hex(x)).collect();
+    format!("conn w={} h={} lay={} name={} dom8={} usr8={} pwd8={} hash={} ra={} blank={} auto={} nla={} check={} ssel={} id={} uid={} ver={} licnew={} share={} source={} caps={} cflags={:08x} react={} inputs={}",
+        c.w, c.h, c.lay, hex(c.name.as_bytes()), hex(c.dom.as_bytes()), hex(c.user.as_bytes()), hex(c.pw.as_bytes()), c.hash as u8, c.ra as u8, c.blank as u8, c.auto as u8, c.nla as u8, c.check as u8,
+        s.sel, s.id, s.uid, s.version, s.license_new as u8, s.share, hex(&s.source), capsh.join(","), s.chal_flags, s.reactivate.map(|x| x.to_string()).unwrap_or("-".into()), s.inputs.join(","))
+}
+
 pub fn emit(em: &mut Emitter, c: &Cfg, s: &SrvCfg) -> Run {
+    watch_begin(&recipe_line(c, s));
     let r = run_conn(c, s);
     let mut obs = Obs::new(r.out.clone()).nt(r.status == "ok").tag(if c.nla { "nla" } else { "ssl" });
     if c.ra { obs = obs.tag("ra"); } if c.blank { obs = obs.tag("blank"); } if c.hash { obs = obs.tag("hash"); } if c.auto { obs = obs.tag("auto"); }
